@@ -66,6 +66,14 @@ def prov_for(op, pl):
     return lambda j: None
 
 
+def _latin1(text):
+    try:
+        text.encode("latin-1")
+        return True
+    except UnicodeEncodeError:
+        return False
+
+
 def execute(world, opsource):
     res = Exec()
     slack, eps, ftol = slacks(world)
@@ -84,6 +92,8 @@ def execute(world, opsource):
         provs = []  # provenance per record index
         seen = 0
         nops = 0
+        body_done = False
+        save_refused = False
         try:
             with sess.wl:
                 i = 0
@@ -150,6 +160,17 @@ def execute(world, opsource):
                         resync(robot, sess)
                     nops += 1
                     i += 1
+                body_done = True
+        except UnicodeEncodeError as e:
+            # leaving the with block saves; records that cannot be written in the format's encoding (Latin-1) are
+            # refused loudly - the only faithful answer.  Anything else is treated like any other exception.
+            if body_done and not all(_latin1(r) for r in sess.records()):
+                save_refused = True
+            elif not raised_in_sut(e):
+                raise
+            else:
+                fail("C01.observe", len(res.ops) - 1, res.ops[-1] if res.ops else None, "ok",
+                     "leaving the with block raised UnicodeEncodeError although every record is Latin-1 text")
         except ShapeChanged as e:
             fail("C01.volume", len(res.ops) - 1, res.ops[-1] if res.ops else None, "ok",
                  f"Labware.volumes of labware {e.args[0]} has shape {e.args[1]}")
@@ -167,7 +188,9 @@ def execute(world, opsource):
                 data = f.read()
         except FileNotFoundError:
             data = None
-        if data is None:
+        if save_refused:
+            res.probes["save_refused_not_latin1"] = 1
+        elif data is None:
             fail("C01.file", last, lop, "ok", "no file was written on leaving the with block")
         elif not res.violations and not res.ended_by_rejection:
             text = data.decode("latin-1")
@@ -332,7 +355,7 @@ def resync(robot, sess):
 class Program:
     def __init__(self, rng, tier, index=0):
         self.rng = rng
-        opts = {"auto_split": True, "patterns": ["full", "uniform", "mixed", "mixed", "empty"]}
+        opts = {"auto_split": True, "patterns": ["full", "uniform", "mixed", "mixed", "empty"], "unicode_names": True}
         if rng.random() < 0.5:
             opts["need_trough"] = True
             opts["need_plate"] = True
@@ -404,6 +427,8 @@ def account(stats, world, res):
     for op, oc in zip(res.ops, res.outcomes):
         stats.transitions.add(transition_key(world, op, oc, (world["regime"],)))
     stats.probes["records_decoded"] += res.decoded
+    for k, v in res.probes.items():
+        stats.probes[k] += v
     stats.last_exec = ({"format": 1, "property": PROP, "world": world, "ops": res.ops}, res.digest)
     if len(stats.samples) < 3 and res.ok_liquid >= 3:
         stats.samples.append({"world": world, "ops": res.ops, "outcomes": res.outcomes})
